@@ -421,6 +421,7 @@ fn validate(ctx: &Context<impl Channel>) -> Result<(), Error> {
         circ,
         inputs,
         p_out,
+        num_inputs,
         ..
     } = ctx;
     circ.validate()?;
@@ -438,6 +439,13 @@ fn validate(ctx: &Context<impl Channel>) -> Result<(), Error> {
     }
     if p_out.is_empty() {
         return Err(Error::MissingOutputParties);
+    }
+    // input_processing() looks up the random share of an `Input` instruction at the position of
+    // that instruction among the first `num_inputs` shares.
+    for (w, inst) in circ.insts.iter().enumerate() {
+        if matches!(inst.op, Op::Input(_)) && w >= num_inputs {
+            return Err(CircuitError::InvalidInput(w, *inst).into());
+        }
     }
     let mut is_output_party = vec![false; p_max];
     for output_party in p_out {
